@@ -81,8 +81,9 @@ type History struct {
 	Index     uint64    `json:"index"`
 	Instances []InstCfg `json:"instances"`
 	Steps     []Step    `json:"steps"`
-	Drain     bool      `json:"drain,omitempty"` // C20: run the bounded-liveness drain phase afterwards
-	Obs       int       `json:"obs,omitempty"`   // C11: 0 = observe after every step, 1 = after every 4th step, 2 = only through explicit read steps and at the end
+	Drain     bool      `json:"drain,omitempty"`   // C20: run the bounded-liveness drain phase afterwards
+	Obs       int       `json:"obs,omitempty"`     // C11: 0 = observe after every step, 1 = after every 4th step, 2 = only through explicit read steps and at the end
+	Prelude   *Prelude  `json:"prelude,omitempty"` // histories (regenerated from seed) to execute first on replay
 	Violation *Viol     `json:"violation,omitempty"`
 }
 
